@@ -33,6 +33,7 @@ static std::string excname(const std::exception& e) {
 
 static std::string num(double x) {
   char b[64];
+  if (std::isnan(x)) return "nan";    // the sign of a NaN carries no meaning
   if (x == std::floor(x) && std::fabs(x) < 9.0e15) snprintf(b, sizeof b, "%lld", (long long)x);
   else snprintf(b, sizeof b, "%.17g", x);
   return b;
